@@ -353,3 +353,23 @@ mutant("c13-stream-order", "C13", "C13.layout.streams", HUFE, "        Self::enc
 mutant("c13-jump-size-position", "C13", "C13.layout.streams", HUFE, "        self.writer.change_bits(size_idx + 16, size2 as u16, 16);", "        self.writer.change_bits(size_idx + 24, size2 as u16, 16);")
 mutant("c13-depth-guard", "C13", "C13.dom.reject", HUFD, "        if max_bits > MAX_MAX_NUM_BITS {", "        if max_bits > MAX_MAX_NUM_BITS + 2 {")
 mutant("c13-interleave-start", "C13", "C13.layout.weights", HUFD, "                dec1.init_state(&mut br)?;\n                dec2.init_state(&mut br)?;", "                dec2.init_state(&mut br)?;\n                dec1.init_state(&mut br)?;")
+
+# ---- C17 -------------------------------------------------------------------------------
+mutant("c17-window-advertised-smaller", "C17", "C17.agree.window", MGEN, "        self.match_generator.max_window_size as u64\n", "        (self.match_generator.max_window_size / 2) as u64\n")
+mutant("c17-evict-bound-off", "C17", "C17.agree.window", MGEN, "        while self.window_size + amount > self.max_window_size {", "        while self.window_size + amount > self.max_window_size + self.window_size / 2 {")
+mutant("c17-base-offset-shift", "C17", "C17.book.base-offset", MGEN, "                entry.base_offset += last_len;", "                entry.base_offset += last_len - last_len / 65536;")
+mutant("c17-offset-formula", "C17", "C17.book.base-offset", MGEN, "let offset = match_entry.base_offset + self.suffix_idx - match_index;", "let offset = match_entry.base_offset + self.suffix_idx - match_index + (match_entry_idx >> 4);")
+mutant("c17-no-recheck", "C17", "C17.dom.recheck", MGEN, "                    if match_len >= MIN_MATCH_LEN {\n                        let offset", "                    if match_len >= MIN_MATCH_LEN - 2 {\n                        let offset")
+mutant("c17-last-entry-overlap", "C17", "C17.book.base-offset", MGEN, "                        &match_entry.data[match_index..self.suffix_idx]", "                        &match_entry.data[match_index..]")
+mutant("c17-literals-range", "C17", "C17.book.tiling", MGEN, "let literals = &last_entry.data[self.last_idx_in_sequence..self.suffix_idx];", "let literals = &last_entry.data[self.last_idx_in_sequence.saturating_sub(self.suffix_idx >> 16)..self.suffix_idx];")
+mutant("c17-evicted-length-not-subtracted", "C17", "C17.agree.window", MGEN, "            self.window_size -= removed.data.len();\n", "            self.window_size -= removed.data.len().min(65535);\n")
+
+# ---- C15 -------------------------------------------------------------------------------
+mutant("c15-fallback-weakened", "C15", "C15.dom.raw-fallback", FAST, "        if compressed_size >= block_size as usize || compressed_size > MAX_BLOCK_SIZE as usize {", "        if compressed_size >= block_size as usize + 64 || compressed_size > MAX_BLOCK_SIZE as usize {")
+mutant("c15-no-max-block-guard", "C15", "C15.dom.raw-fallback", FAST, "        if compressed_size >= block_size as usize || compressed_size > MAX_BLOCK_SIZE as usize {", "        if compressed_size >= block_size as usize {")
+mutant("c15-raw-wrong-bytes", "C15", "C15.dom.raw-fallback", FAST, "            output.extend_from_slice(state.matcher.get_last_space());", "            output.extend_from_slice(&compressed[..(block_size as usize).min(compressed.len())]);\n            output.resize(output.len() + block_size as usize - (block_size as usize).min(compressed.len()), 0);")
+mutant("c15-rle-test-weakened", "C15", "C15.dom.raw-fallback", FAST, "    if uncompressed_data.iter().all(|x| uncompressed_data[0].eq(x)) {", "    if uncompressed_data.iter().step_by(2).all(|x| uncompressed_data[0].eq(x)) {")
+mutant("c15-slice-size-too-big", "C15", "C15.const.block", FCOMP, "                matcher: MatchGeneratorDriver::new(1024 * 128, 1),", "                matcher: MatchGeneratorDriver::new(1024 * 256, 1),")
+mutant("c15-window-not-from-matcher", "C15", "C15.window", FCOMP, "            window_size: Some(self.state.matcher.window_size()),", "            window_size: Some(self.state.matcher.window_size() / 2),")
+mutant("c15-literals-fallback-dropped", "C15", "C15.flow", COMP, "    if total_len >= literals.len() {", "    if total_len >= literals.len() * 2 {")
+mutant("c15-garbage-after-frame", "C15", "C15.flow", FCOMP, "        // If the `hash` feature is enabled, then `content_checksum` is set to true in the header", "        if self.state.last_huff_table.is_some() && false { drain.write_all(&[0u8]).unwrap(); }\n        // If the `hash` feature is enabled, then `content_checksum` is set to true in the header")
